@@ -26,4 +26,7 @@ CONSTANTS
 INVARIANT TypeOK
 INVARIANT StoredNormalised
 INVARIANT SqlAgreesOnBag
+INVARIANT ListIsUnionOfSingles
+INVARIANT CountRowsPartition
+INVARIANT TalliesSumToLen
 PROPERTY OnlyGrowsOrFilters
